@@ -1,0 +1,48 @@
+package codecs
+
+import (
+	"encoding/binary"
+	"fmt"
+	"io"
+
+	"github.com/datastax/go-cassandra-native-protocol/compression/lz4"
+	pierrec "github.com/pierrec/lz4/v4"
+)
+
+// lz4Compressor is the native protocol library's LZ4 compressor with one difference: a body is decompressed into a
+// buffer of the decompressed length that precedes it. The library's `DecompressWithLength()` ignores that length and
+// tries buffers of up to eight times the compressed length, so it fails for bodies that compress better than that.
+type lz4Compressor struct {
+	lz4.Compressor
+}
+
+func (c lz4Compressor) DecompressWithLength(source io.Reader, dest io.Writer) error {
+	var decompressedLength uint32
+	if err := binary.Read(source, binary.BigEndian, &decompressedLength); err != nil {
+		return fmt.Errorf("cannot read compressed length: %w", err)
+	}
+	compressed, err := io.ReadAll(source)
+	if err != nil {
+		return fmt.Errorf("cannot read compressed message: %w", err)
+	}
+	if decompressedLength == 0 {
+		// An empty message is followed by a single byte that is discarded
+		if len(compressed) == 0 {
+			return fmt.Errorf("cannot read empty message: %w", io.EOF)
+		}
+		return nil
+	}
+	// LZ4 can't expand a block more than 255 times, don't allocate what can't be filled
+	if uint64(decompressedLength) > 255*uint64(len(compressed)) {
+		return fmt.Errorf("cannot decompress message: invalid decompressed length %d for %d bytes", decompressedLength, len(compressed))
+	}
+	decompressed := make([]byte, decompressedLength)
+	written, err := pierrec.UncompressBlock(compressed, decompressed)
+	if err != nil {
+		return fmt.Errorf("cannot decompress message: %w", err)
+	}
+	if _, err = dest.Write(decompressed[:written]); err != nil {
+		return fmt.Errorf("cannot write decompressed message: %w", err)
+	}
+	return nil
+}
